@@ -422,21 +422,48 @@ def _dd_closures(m):
     return init, {c.key.split('.')[-1]: c for c in init.children}, init.children
 
 
+def _reader_closures(m):
+    """The closures DtypeDefinition.__init__ can install as self.read_fn (by role, whatever they are called), each with the
+    closure that does its work when it only forwards to a sibling closure."""
+    init, byname, children = _dd_closures(m)
+    installed = []
+    assigns = sorted([x for x in own_walk(init.node) if isinstance(x, ast.Assign) and any(ast.unparse(t) == 'self.read_fn' for t in x.targets)
+                      and isinstance(x.value, ast.Name)], key=lambda x: x.lineno)
+    prev = 0
+    for x in assigns:
+        # every definition of that name since the previous installation may be the one installed (if/else alternatives)
+        cands = [c for c in children if c.name == x.value.id and prev < c.node.lineno < x.lineno]
+        if not cands:
+            cands = [c for c in children if c.name == x.value.id and c.node.lineno < x.lineno][-1:]
+        installed.extend(cands)
+        prev = x.lineno
+    out = []
+    for c in installed:
+        work = c
+        body = G.body_wo_doc(c)
+        if len(body) == 1 and isinstance(body[0], ast.Return) and isinstance(body[0].value, ast.Call) and isinstance(body[0].value.func, ast.Name):
+            tgt = [k for k in children if k.name == body[0].value.func.id and k is not c]
+            if tgt:
+                work = max(tgt, key=lambda k: k.node.lineno if k.node.lineno < c.node.lineno else -1)
+        if (c, work) not in out:
+            out.append((c, work))
+    return out
+
+
 def rule_E7(ctx):
-    """Both fixed-length read closures check the remaining bits and raise ReadError."""
+    """Every fixed-length read closure checks the remaining bits and raises ReadError."""
     m = ctx.m
     r = RuleResult('E7', 'fixed-length read_fn closures agree on the remaining-bits check (ReadError)')
-    init, _, children = _dd_closures(m)
     fixed = []
-    for c in children:
-        if c.name != 'read_fn':
-            continue
+    seen = set()
+    for c0, c in _reader_closures(m):
         # the variable-length reader unpacks a (value, length) pair; fixed-length readers slice bs[start:start + n]
         slices = [x for x in own_walk(c.node) if isinstance(x, ast.Subscript) and isinstance(x.slice, ast.Slice) and x.slice.upper is not None]
-        if slices:
+        if slices and c.key not in seen:
+            seen.add(c.key)
             fixed.append((c, slices[0]))
-    if len(fixed) < 2:
-        raise AnalysisError(f'only {len(fixed)} fixed-length read_fn closures found (expected 2)')
+    if len(fixed) < 1:
+        raise AnalysisError(f'no fixed-length reader installed as self.read_fn found in DtypeDefinition.__init__')
     for c, sl in fixed:
         upper = ast.unparse(sl.slice.upper)
         good = None
@@ -586,8 +613,10 @@ def rule_D2(ctx):
                'whole-bitstring property', loc=lc[0].loc())
     else:
         r.ok(lc[0].key, {'instance': lc[0].key, 'guard': norm(g[0].test)})
-    vr = [c for c in children if c.name == 'read_fn' and not any(isinstance(x, ast.Subscript) and isinstance(x.slice, ast.Slice) and x.slice.upper is not None
-                                                               for x in own_walk(c.node))]
+    vr = []
+    for c0, c in _reader_closures(m):
+        if not any(isinstance(x, ast.Subscript) and isinstance(x.slice, ast.Slice) and x.slice.upper is not None for x in own_walk(c.node)) and c not in vr:
+            vr.append(c)
     if len(vr) != 1:
         raise AnalysisError('variable-length read_fn closure not found')
     ok = False
